@@ -165,6 +165,14 @@ def _get_obj_att(obj: Any, key: str, obj_type: type | None = None) -> tuple[Any,
     return obj, tail
 
 
+def _is_value(value: Any) -> bool:
+    """Check if this is the value of a parameter and not an object with parameters."""
+    if isinstance(value, list | tuple):
+        return all(_is_value(el) for el in value)
+
+    return value is None or isinstance(value, str | Number | np.ndarray | np.generic)
+
+
 class _MISSING_TYPE: ...  # noqa: N801
 
 
@@ -314,8 +322,15 @@ class Processor:
 
         if isinstance(obj, dict) and att in obj:
             obj[att] = new_value
-        else:
+        elif (
+            isinstance(obj, Mapping)  # 'Arguments' refuses itself an unknown argument
+            or isinstance(getattr(type(obj), att, None), property)
+            or _is_value(getattr(obj, "__dict__", {}).get(att, MISSING))
+        ):
             setattr(obj, att, new_value)
+        else:
+            # Never create a new attribute, shadow a method or replace an object
+            raise AttributeError(f"Parameter {key!r} does not exist or cannot be set !")
 
     # TODO: Create a method `DetectionPipeline.run`
     def run_pipeline(self, debug: bool) -> None:
